@@ -3,7 +3,7 @@
 TIER=${1:-quick}; shift; SEEDS=${@:-1 2 3}
 cd "$(dirname "$0")/.."
 for seed in $SEEDS; do
-  for p in C01 C02 C03 C04 C05 C06 C07 C08 C09 C10 C11 C12 C13 C14 C15 C16 C17 C18 C19 C20; do
+  for p in ${SOAK_ORDER:-C01 C02 C03 C04 C05 C06 C07 C08 C09 C10 C11 C12 C13 C14 C15 C16 C17 C18 C19 C20}; do
     s=$(date +%s); out=$(VERIF_SEED=$seed ./check $p --tier $TIER 2>&1); rc=$?; e=$(date +%s)
     echo "SOAK tier=$TIER seed=$seed $p rc=$rc wall=$((e-s))s $(echo "$out" | grep -E '^C[0-9]+ ' | head -1)"
     if [ $rc -ne 0 ]; then echo "$out" | grep -v "rapid\] draw" | tail -25 | cut -c1-1500; fi
